@@ -98,13 +98,13 @@ http_range_parse_next (const char * restrict s, const off_t len,
                 n = strtoll((s = e+1), &e, 10);
                 if (s == e || (n == 0 && e[-1] != '0'))
                     ranges[1] = len-1;
-                else if (ranges[0] <= n && n != LLONG_MAX)
+                else if (ranges[0] <= n) /*(n clamped to LLONG_MAX is >= len)*/
                     ranges[1] = n < len ? n : len-1;
             }
         }
     }
-    else if (n != LLONG_MIN) {
-        ranges[0] = len > -n ? len + n : 0;/*('n' is negative here)*/
+    else { /*(suffix-length clamped to LLONG_MIN: whole representation)*/
+        ranges[0] = (n != LLONG_MIN && len > -n) ? len + n : 0;/*('n' is negative here)*/
         ranges[1] = len-1;
     }
     while (*e == ' ' || *e == '\t') ++e;
